@@ -9,8 +9,6 @@ import (
 	"testing"
 	"testing/synctest"
 
-	"verif/harness/comp/kcpcore"
-	"verif/harness/comp/ring"
 	"verif/harness/internal/hx"
 )
 
@@ -19,14 +17,12 @@ type component struct {
 	bubble bool // run inside a testing/synctest bubble (frozen virtual clock)
 }
 
-var components = map[string]component{
-	"ring":      {ring.Run, false},
-	"kcp":       {kcpcore.Run, true},
-	"kcp-clean": {kcpcore.RunClean, true},
-	"kcp-stall": {kcpcore.RunStall, true},
-	"kcp-shift": {kcpcore.RunShift, true},
-	"kcp-mtu":   {kcpcore.RunMtu, true},
-	"kcp-forge": {kcpcore.RunForge, true},
+var components = map[string]component{}
+
+// register is called from the init function of one reg_<name>.go file per component
+// (separate files so that parallel branches never conflict).
+func register(name string, run func(o *hx.Out, g *hx.Rng, tier string), bubble bool) {
+	components[name] = component{run, bubble}
 }
 
 func main() {
